@@ -374,7 +374,8 @@ theorem copyrightLoop_lics (F L : Spec) (lics : List SV) (ps : List DNode) (fs a
 theorem printField_prefix (k v : Str) : (k ++ [':']).isPrefixOf (printField (k, v)) = true := by
   unfold printField
   simp only
-  split <;> simp [List.isPrefixOf_iff_prefix, List.prefix_append, List.append_assoc]
+  rw [List.isPrefixOf_iff_prefix]
+  exact ⟨(List.map (fun l => ' ' :: l ++ ['\n']) (Text.splitOn '\n' v)).flatten, by simp [List.append_assoc]⟩
 
 /-- copyright file: header, Files paragraphs, licence paragraphs — the order `Display` prints.
     `hFormat`: the header prints `Format` first (the gate `starts_with("Format:")`) -/
